@@ -64,7 +64,7 @@ def _build():
     add(E('qty:int kg', N.num(3, 'kg'), 'int'))
     for u in ['%', '$', 'm/s', u'°C', u'µg', 'kW_h', 'ft']:
         add(E('qty:-2.25' + u, N.num(-2.25, u), rep=(u == u'°C')))
-    add(E('qty:1e22kg', N.num(1e22, 'kg')))
+    add(E('qty:1e22kg', N.num(1e22, 'kg'), rep=True))      # same magnitude as the representative plain number 1e22
     add(E('qty:1e-7kg', N.num(1e-7, 'kg')))
     add(E('qty:nounit', N.num(2.5), 'qty'))
     add(E('qty:emptyunit', N.num(2.5), 'qty-empty'))
